@@ -57,8 +57,15 @@ func buildQuery(eng *Engine, solver string, fv *funcVC, k int, wantModel bool) s
 			sb.WriteString(it.Text)
 			sb.WriteByte('\n')
 		case itAssume:
+			if wantModel && strings.Contains(it.Text, "(forall ") {
+				// model search: drop quantified hypotheses (a spurious model is caught by the replay)
+				continue
+			}
 			sb.WriteString("(assert " + it.Text + ")\n")
 		case itOblig:
+			if wantModel && strings.Contains(it.Ob.Formula, "(forall ") {
+				continue
+			}
 			if target.Kind == "strictslice" && it.Ob.Kind == "slice" && it.Ob.Ins != nil && it.Ob.Ins == target.Ins {
 				continue // so that the cap==len witness (a panic) stays available for replay
 			}
@@ -143,6 +150,7 @@ type solveOpts struct {
 	solvers  []string
 	allAgree bool // thorough: every solver must answer unsat (or at least not sat)
 	keep     bool
+	only     string
 }
 
 func solveAll(eng *Engine, fvs []*funcVC, opt solveOpts) []*Result {
@@ -154,6 +162,9 @@ func solveAll(eng *Engine, fvs []*funcVC, opt solveOpts) []*Result {
 	for _, fv := range fvs {
 		for k, it := range fv.Items {
 			if it.Kind == itOblig {
+				if opt.only != "" && !strings.Contains(it.Ob.Name, opt.only) {
+					continue
+				}
 				jobs = append(jobs, job{fv, k})
 			}
 		}
